@@ -133,6 +133,10 @@ def run_inputs(sh, w, known, codes, base="p", libcall=None):
         except WorkerTimeout:
             w.restart()
             prepare_bases(w)
+            if case.get("libcall") == "count_driven" and BIG_NUM.search(code):
+                # no point in confirming for two more minutes: the caller asked for an unbounded amount of work
+                sh.count("timeouts_of_count_driven_library_calls_with_huge_counts_not_judged")
+                continue
             try:
                 t0 = time.time()
                 r = run_one(w, code, base, timeout=ALONE_TIMEOUT)
